@@ -48,5 +48,14 @@ def Token.render : Token → String
   | Token.pname p l r => (if r then "@" else "") ++ p ++ ":" ++ l
   | Token.iriref i r => (if r then "@" else "") ++ "<" ++ i ++ ">"
 
+/-- `BaseStatementSerializer.str_of_target_element`: the value of a constraint on the instantiation property is a value set `[ex:C]`,
+every other value expression a bare token; the direction of the constraint plays no part -/
+def valueToken (cfg : Config) (ns : Namespaces) (s : Shexer.Stmt) (ty : String) : String :=
+  if s.prop == cfg.instProp then "[" ++ (tuneToken ns ty).render ++ "]" else (tuneToken ns ty).render
+
+/-- the key of a constraint as written: `^`, predicate token, value tokens -/
+def stmtTokens (cfg : Config) (ns : Namespaces) (s : Shexer.Stmt) : String × String × List String :=
+  (if s.inverse then "^" else "", (tuneToken ns s.prop).render, s.types.map (valueToken cfg ns s))
+
 end Text
 end Shexer
